@@ -232,6 +232,25 @@ Definition heap_step (a : al) (o : qop) : al * res :=
   end.
 End Heap.
 
+(* comparator shapes the harness instantiates the heap / priority queue with; [cmp_sel] is the integer the Go
+   comparator returns on (a, b) - elements are encoded by their priority -, the heap only ever tests it against 0 *)
+Inductive cmpsel :=
+| CInt      (* bcomparator.IntComparator: -1 / 0 / +1 *)
+| CRev      (* bcomparator.ReverseComparator(IntComparator): +1 / 0 / -1 *)
+| CSub      (* func(a, b) int { return a - b } *)
+| CSubRev   (* func(a, b) int { return b - a }   (max-heap) *)
+| CScaled   (* func(a, b) int { return (a - b) * 7 } *)
+| CPrio.    (* elements are structs, func(a, b) int { return a.prio - b.prio } *)
+Definition cmp_sel (s : cmpsel) (a b : Z) : Z :=
+  match s with
+  | CInt => if (a <? b)%Z then (-1)%Z else if (a =? b)%Z then 0%Z else 1%Z
+  | CRev => if (a <? b)%Z then 1%Z else if (a =? b)%Z then 0%Z else (-1)%Z
+  | CSub | CPrio => (a - b)%Z
+  | CSubRev => (b - a)%Z
+  | CScaled => ((a - b) * 7)%Z
+  end.
+Definition le_sel (s : cmpsel) (a b : Z) : bool := (cmp_sel s a b <=? 0)%Z.
+
 Definition le_int (a b : Z) : bool := (a <=? b)%Z.       (* bcomparator.IntComparator *)
 Definition le_rev (a b : Z) : bool := (b <=? a)%Z.       (* bcomparator.ReverseComparator(IntComparator) *)
 
